@@ -132,7 +132,11 @@ def check_views(s, ix, record, counters):
         have_kw = "kw" in mi.field_names
         for spec in record["queries"]:
             q = Q.build(spec, mi.schema)
-            exp = Q.evaluate(spec, docs, mi.schema)
+            try:
+                exp = Q.evaluate(spec, docs, mi.schema)
+                Q.evaluate(record["queries"][(record["queries"].index(spec) + 1) % len(record["queries"])], docs, mi.schema)
+            except Q.Ambiguous:
+                continue
             desc = Q.show(spec)
             full = run(q, limit=None)
             ranking = pairs(full)
